@@ -219,8 +219,9 @@ class M_stop_coro_tasks(TaskSeqContract):
             seq = SymSeq.empty()
             for x in ca.args:
                 if isinstance(x, StarSeq):
-                    raise Exception('mixed star args')
-                seq = seq.append(lift(x, it.st))
+                    seq = it.models.seq_concat(it, seq, x.seq)
+                else:
+                    seq = seq.append(lift(x, it.st))
         return A(seq=seq)
 
     def requires(self, it, pre, a):
@@ -256,7 +257,7 @@ class M_stop_coro_tasks(TaskSeqContract):
 class M_create_task(MgrContract):
     name = 'DAGRunConcurrentManager._create_task'
     returns = 'val'
-    props = ('C13', 'C06', 'C02')
+    props = ('C13', 'C06', 'C02', 'C05')
     doc = 'T\' = T ∪ {t}, t fresh and pending; the only place tasks are created'
 
     def setup(self, it):
@@ -283,7 +284,12 @@ class M_create_task(MgrContract):
 
     def effects_spec(self, it, pre, post, a, outcome, value, effects):
         spawns = [e for e in effects if e.kind == 'spawn']
-        return [('exactly-one-spawn-of-the-given-coroutine', len(spawns) == 1 and spawns[0].coro is a.coro)]
+        deferred = [e for e in effects if e.kind == 'done_callback']
+        return [('exactly-one-spawn-of-the-given-coroutine', len(spawns) == 1 and spawns[0].coro is a.coro),
+                # T only grows during a run: run() learns of failed helper tasks from T alone (C02/C05), and cancels
+                # exactly T at exit (C13); a completion callback that edits T later breaks both
+                ('no-deferred-callback-edits-the-task-registry|C02,C05,C13',
+                 not any(e.bound is not None for e in deferred))]
 
     def call_effects(self, it, pre, post, a, res):
         from pyvc.interp import Coroutine
@@ -541,7 +547,7 @@ class M_get_node_order(MgrContract):
                                            patterns=[z3.MultiPattern(L.at(i), L.at(j))])),
             ('topological|C03,C06', FA([i, j], z3.Implies(
                 z3.And(inr(i), inr(j), ops.edge_in(a.dag, L.at(i), L.at(j))), i < j),
-                patterns=[z3.MultiPattern(L.at(i), L.at(j))])),
+                patterns=[ops.edge_trigger(a.dag, L.at(i), L.at(j))])),
             ('depth-monotone|C06', FA([i, j], z3.Implies(z3.And(inr(i), inr(j), i < j),
                                                                 depth(L.at(i)) <= depth(L.at(j))),
                                              patterns=[z3.MultiPattern(L.at(i), L.at(j))])),
